@@ -372,3 +372,37 @@ pub async fn run_replay(ad: &mut dyn Adapter, input: &str, with_finale: bool, ou
     st.events = sim.n_events;
     st
 }
+
+/// How callers obtain the service they call (state shared by all clones must not depend on it):
+/// mode 0 = a fresh clone per request, 1 = one long-lived handle for every request,
+/// 2 = two long-lived clones used alternately.
+pub struct Handles<S: Clone> {
+    pub base: S,
+    alt: S,
+    pub mode: u64,
+    n: u64,
+}
+impl<S: Clone> Handles<S> {
+    pub fn new(base: S, mode: u64) -> Self {
+        let alt = base.clone();
+        Handles { base, alt, mode, n: 0 }
+    }
+    /// run f on the handle chosen for the next request
+    pub fn with<R>(&mut self, f: impl FnOnce(&mut S) -> R) -> R {
+        self.n += 1;
+        match self.mode {
+            1 => f(&mut self.base),
+            2 => {
+                if self.n % 2 == 0 {
+                    f(&mut self.alt)
+                } else {
+                    f(&mut self.base)
+                }
+            }
+            _ => {
+                let mut c = self.base.clone();
+                f(&mut c)
+            }
+        }
+    }
+}
